@@ -11,7 +11,7 @@ COQ_TARGETS = ["Properties/C09", "Pins/C09"]
 THEOREMS = [("PdfV.Properties.C09", n) for n in
             ["C09_read_your_writes", "C09_get_coherent", "C09_byte_len_fits", "C09_xref_roundtrip", "C09_prefix",
              "C09_save_layout", "C09_parse_ser", "C09_reload", "C09_reload_stream", "C09_locate_xref", "C09_load_table", "C09_reload_untouched", "C09_failed_save_recovers", "C09_second_save",
-             "C09_wf_preserved", "C09_create_nested", "C09_create_is_create_with"]]
+             "C09_wf_preserved", "C09_create_nested", "C09_create_is_create_with", "C09_create_with", "C09_conservative_closed"]]
 ANCHORS = ["file.rs", "xref.rs"]
 if os.environ.get("VP_DEV"):
     COQ_TARGETS, THEOREMS = ["Storage/Run"], []
@@ -283,7 +283,11 @@ def gen_history(rng, base, n_ops, n_saves, fail_mode):
                 h.add(b"S", "S")
             continue
         k = rng.randrange(10)
-        if k <= 1 and rng.randrange(4) == 0:
+        if k <= 1 and rng.randrange(8) == 0:
+            # two levels of conversion-created objects: three references (parent, middle, leaf)
+            v = gen_hvalue(rng, refs_pool())
+            h.add(b"M " + cv(v), "M", v); nh += 3; handles.extend(["c", "c", "c"])
+        elif k <= 1 and rng.randrange(4) == 0:
             # create of a value whose conversion creates a child through the updater: two references (parent, child)
             v = gen_hvalue(rng, refs_pool())
             h.add(b"N " + cv(v), "N", v); nh += 2; handles.append("c"); handles.append("c")
@@ -403,6 +407,20 @@ def check_history(base, h, want_tags=None):
                     overlay[c[0]] = op[1]
                     overlay[r[0]] = {"Child": Ref(c[0], c[1])}
                     handed.append(r); handed.append(c)
+                elif kind == "M":
+                    got = [parse_ref(take()) for _ in range(3)]
+                    if any(x is None for x in got):
+                        return "create (two levels) did not return three references"
+                    if len({x[0] for x in got}) != 3:
+                        return "create handed out the same number twice among parent, middle and leaf: %r" % (got,)
+                    for x in got:
+                        if x[0] in used or x[0] in promised or x[0] == 0 or x[1] != 0:
+                            return "create (two levels) handed out %r which is already in use" % (x,)
+                        used.add(x[0]); gens[x[0]] = 0
+                    overlay[got[2][0]] = op[1]
+                    overlay[got[1][0]] = {"Child": Ref(got[2][0], 0)}
+                    overlay[got[0][0]] = {"Child": Ref(got[1][0], 0)}
+                    handed.extend(got)
                 elif kind == "P":
                     r = parse_ref(take())
 
@@ -522,6 +540,8 @@ def check_save_to(h):
             nh += 1
         elif k == "N":
             nh += 2
+        elif k == "M":
+            nh += 3
 
     def chk(r):
         if r[0] != "OK":
